@@ -16,8 +16,12 @@ pub fn adjacency_matrix<F: Float, DT: Data<Elem = F>, N: NearestNeighbour>(
     assert!(k < n_points);
     assert!(k > 0);
 
+    // the K-D tree index requires rows that are contiguous in memory: records in column-major
+    // order or strided views are copied into standard layout (no copy otherwise)
+    let dataset = dataset.as_standard_layout();
+
     let nn = nn_algo
-        .from_batch(dataset, L2Dist)
+        .from_batch(&dataset, L2Dist)
         .expect("Unexpected nearest neighbour error");
 
     // allocate buffer to initialize the sparse matrix later on
